@@ -8,9 +8,9 @@ def check(tier, seed):
     return G.generic_check(PID, "exploration", tier, seed, coq=False,
         rule='FEN: structural families (every rank replaced by over-long/short/digit-0/9 variants, every field count, all 64 ep squares x 3 boards, signed/huge/garbled clocks) + byte-level mutations of valid FENs (incl. non-UTF-8 bytes) + valid FENs: NewPositionFen under recover(), accepted strings must reparse to themselves; UCI: ~60 command templates, all their token prefixes, a 1200-ply move list, mutated lines through a real handler under recover() and a watchdog, followed by isready and a check that a valid position is held; a case = one string',
         streams=[dict(name='fen_monitor', kind="monitor", shards=lambda t: 2 if t == "quick" else 16,
-                      args=lambda t, s, sh, path: ['c16-fen', 20000 if q else 400000, s * 1000 + sh]),
+                      args=lambda t, s, sh, path: ['c16-fen', 20000 if t == "quick" else 400000, s * 1000 + sh]),
                  dict(name='uci_monitor', kind="monitor", shards=lambda t: 2 if t == "quick" else 16,
-                      args=lambda t, s, sh, path: ['c16-uci', 1500 if q else 20000, s * 1000 + sh])])
+                      args=lambda t, s, sh, path: ['c16-uci', 1500 if t == "quick" else 20000, s * 1000 + sh])])
 
 
 def replay(path):
